@@ -376,8 +376,16 @@ class Func:
         return out
 
     def cond(self, bid):
+        """The atomic condition the block branches on: for `if (a && b)` the block that
+        evaluates b branches on b (clang reports the whole `a && b`), so strip to the
+        right-most operand of && / ||."""
         c = self.blocks[bid].get('cond')
-        return self.expr(c) if c is not None else None
+        if c is None:
+            return None
+        e = self.expr(c)
+        while e is not None and e.k == 'bin' and e.op in ('&&', '||'):
+            e = e.ch[1]
+        return e
 
     def term_kind(self, bid):
         t = self.blocks[bid].get('term')
@@ -895,12 +903,17 @@ def lockset_analysis(func, table, init=frozenset()):
     r.must_before = must_before
     r.may_before = may_before
     def exits():
-        """[(ret_event_or_None, must, may)] for every return / fallthrough to exit."""
+        """[(ret_event_or_None, must, may, loc)] for every edge into the exit block
+        (explicit returns and falling off the end); noreturn blocks excluded."""
         out = []
-        for ev in func.returns():
-            s = before(ev)
-            if s is not None:
-                out.append((ev, s[0], s[1]))
+        for pb, _ in func.preds()[func.exit]:
+            st = at_end(pb)
+            if st is None:
+                continue
+            rets = [e for e in func.block_events(pb) if e.kind == 'ret']
+            ev = rets[-1] if rets else None
+            loc = ev.loc if ev is not None else '%s:%d' % (func.file, func.endl)
+            out.append((ev, st[0], st[1], loc))
         return out
     r.exits = exits
     return r
@@ -917,3 +930,47 @@ def strip_addr(e):
 
 def render_path(func, path):
     return ['%s:B%d%s' % (func.name, b, '' if lab is None else '[%s]' % (lab,)) for b, lab in path]
+
+
+# ------------------------------------------------------------------------------------
+# A-eff helpers: field accesses inside one function
+# ------------------------------------------------------------------------------------
+class Access:
+    __slots__ = ('ev', 'kind', 'lv', 'field', 'rec', 'func')
+
+    def __init__(self, ev, kind, lv, func):
+        self.ev = ev; self.kind = kind; self.lv = lv; self.field = lv.n; self.rec = lv.rec; self.func = func
+
+    def __repr__(self):
+        return '%s %s @%s' % (self.kind, self.lv.s, self.ev.loc)
+
+
+def _mem_nodes(e):
+    return [x for x in e.walk() if x.k == 'mem']
+
+
+def field_accesses(func, fields, rec=None):
+    """Every access (plain load, plain store, ++/--, compound store, address-taken-in-call:
+    kind 'atomic:<fn>' when passed by address to an atomic wrapper, else 'addr:<fn>') to a
+    struct field named in `fields` (optionally restricted to record `rec`)."""
+    out = []
+    fields = set(fields)
+
+    def want(m):
+        return m.k == 'mem' and m.n in fields and (rec is None or m.rec == rec or (isinstance(rec, (set, tuple, list)) and m.rec in rec))
+
+    for ev in func.events():
+        if ev.kind == 'store':
+            if want(ev.lhs):
+                out.append(Access(ev, 'store' if ev.op == '=' else 'rmw-plain', ev.lhs, func))
+        elif ev.kind == 'load':
+            if want(ev.e):
+                out.append(Access(ev, 'load', ev.e, func))
+        elif ev.kind == 'call':
+            for a in ev.args or ():
+                if a.k == 'un' and a.op == '&' and want(a.ch[0]):
+                    fn = ev.fn or 'indirect'
+                    kind = 'atomic:' + fn if fn.startswith('parsec_atomic_') or fn.startswith('__sync') or fn.startswith('__atomic') else 'addr:' + fn
+                    out.append(Access(ev, kind, a.ch[0], func))
+    # a load that is merely the operand of a store/++ on the same lvalue is reported once (as the store)
+    return out
